@@ -94,6 +94,25 @@ theorem ack_iff (c : Cfg) (o : Outcome α) (p : PubOutcome) :
     .routerAck ∈ handle c o p ↔ AckCond c o p := by
   rw [mem_handle_settle c o p .routerAck rfl, decision_ack_iff]
 
+/-- the same for a publisher whose verdict depends on the messages it is handed: Ack iff the chain returned no
+    error and the publisher accepts the call that carries all the returned messages -/
+theorem ack_iff_with (c : Cfg) (o : Outcome α) (f : List α → PubOutcome) :
+    .routerAck ∈ handleWith c o f ↔
+      ∃ outs, o.result = .returns outs false ∧ (outs = [] ∨ (c.kind = .withPub ∧ f outs = .accept)) := by
+  unfold handleWith
+  rw [ack_iff]
+  rcases o with ⟨s, r⟩
+  cases r with
+  | panics v => simp [AckCond]
+  | returns outs e =>
+    constructor
+    · rintro ⟨outs', h1, h2⟩
+      injection h1 with ho he; subst ho; subst he
+      exact ⟨outs, rfl, h2⟩
+    · rintro ⟨outs', h1, h2⟩
+      injection h1 with ho he; subst ho; subst he
+      exact ⟨outs, rfl, h2⟩
+
 /-- **Nack iff not** that: the router issues a Nack in exactly the complementary cases -/
 theorem nack_iff (c : Cfg) (o : Outcome α) (p : PubOutcome) :
     .routerNack ∈ handle c o p ↔ ¬ AckCond c o p := by
@@ -356,6 +375,9 @@ example : AckCond ⟨.withPub, "out"⟩ ⟨none, .returns [1, 2, 3] false⟩ .ac
 example : ¬ AckCond ⟨.disabled, ""⟩ ⟨none, .returns [1] false⟩ .accept := by simp [AckCond]
 example : sentAfter .new (handle ⟨.withPub, "out"⟩ ⟨some .nack, .returns [1] false⟩ .accept) = .nack := by decide
 example : sentAfter .zero (handle ⟨.withPub, "out"⟩ ⟨some .ack, (.panics .nil : Result Nat)⟩ .accept) = .ack := by decide
+-- a publisher that refuses any call containing output 0: one call with all outputs, refused, Nack
+example : handleWith ⟨.withPub, "t"⟩ ⟨none, .returns [0, 1, 2] false⟩ (fun ms => if ms.contains 0 then .error else .accept) =
+    [.handlerCalled, .addCtx [0, 1, 2], .publishCall "t" [0, 1, 2], .publishRet .error, .routerNack, .done] := by decide
 -- the hypotheses of `publish_before_ack` / `publish_before_ack_idx` / `state_inside_publish` are satisfiable:
 example : handle ⟨.withPub, "t"⟩ ⟨none, .returns [5] false⟩ .accept =
     [.handlerCalled, .addCtx [5], .publishCall "t" [5], .publishRet .accept] ++ .routerAck :: [.done] := by decide
